@@ -407,6 +407,7 @@ func (ex *Exec) forkValues(st *State, t *Term, max int) []*State {
 			return []*State{st}
 		}
 	}
+	shards, shard, sdepth := ex.Bounds["shards"], ex.Bounds["shard"], ex.Bounds["shard_depth"]
 	for i, v := range vals {
 		s := st
 		if i < len(vals)-1 {
@@ -415,9 +416,33 @@ func (ex *Exec) forkValues(st *State, t *Term, max int) []*State {
 		s.depth++
 		s.addPC(ex.Ctx.Eq(t, ex.Ctx.BV(t.W, v)))
 		s.conc[t.ID] = v
+		// sharding: the decision VALUES (not their enumeration order, which depends on solver models) identify
+		// the path prefix; at the shard_depth-th value fork a job keeps only the prefixes that hash to its index
+		s.vdepth++
+		s.vhash = s.vhash*1000003 + v + 1
+		if shards > 1 && s.vdepth == sdepth && int(mix64(s.vhash)%uint64(shards)) != shard {
+			ex.Results.OtherShards++
+			continue
+		}
 		out = append(out, s)
 	}
+	if len(out) == 0 {
+		st.status = Aborted
+		st.abortK = "stop"
+		st.abortM = "all successors belong to other shards"
+		return []*State{st}
+	}
 	return out
+}
+
+// mix64 is the splitmix64 finaliser (spreads the few distinct prefix hashes evenly over the shards).
+func mix64(x uint64) uint64 {
+	x ^= x >> 30
+	x *= 0xbf58476d1ce4e5b9
+	x ^= x >> 27
+	x *= 0x94d049bb133111eb
+	x ^= x >> 31
+	return x
 }
 
 // portfolio order after the primary solver
